@@ -10,21 +10,25 @@ TB = ("Coq 8.16.1 kernel; hand-written Gallina model tied to /repo by the corres
 
 CLAIMED = {
  "C13": dict(
-   text="20 theorems about a Gallina model of quantum/tk.py (to_tk main loop with the qubit / bit register lists, "
+   text="28 theorems about a Gallina model of quantum/tk.py (to_tk main loop with the qubit / bit register lists, "
         "prepare_qubits / prepare_bits, measure_qubits, swaps, add_gate, post-selection dict and post-processing; from_tk "
         "with make_units_adjacent): for every prefix of every export run the qubit register list is the injective, "
         "increasing image of the live qubit wires (register invariant), the command list equals the relabelled "
-        "wire-labelled trace of the circuit (gates and measurements, in order, on the registers carrying the wires), "
-        "rotation angles round-trip exactly (x2, mod 4, /2 = phase mod 2), prepare_bits renames the post-selection "
-        "dict exactly as it renames bit indices, from_tk always returns a well-typed circuit from Ty() to the "
-        "post-processing codomain; refutation witnesses for the pinned defects and soundness of the repairs on them.  "
-        "Partial: the distribution statement itself (simulate . to_tk = mixed evaluation) and the bit-routing / "
-        "import-trace statements are Definitions evaluated through the model on every generated case, not theorems; "
-        "they are decided per case by the numerical oracles (own tket simulator vs eval(mixed=True), mock backend, "
-        "round trip).  Tie to /repo: exact comparison of exported tket circuits modulo commutation on disjoint units "
-        "and of imported diagrams.",
+        "wire-labelled trace of the circuit, rotation angles round-trip exactly (x2, mod 4, /2 = phase mod 2), "
+        "prepare_bits renames the post-selection dict exactly as it renames bit indices; BIT ROUTING: outside the "
+        "trigger predicates of the listed known findings (F30, F36, F37) every output bit and every post-selection "
+        "constraint of the exported circuit has the provenance the circuit gives it (for every setting of the repair "
+        "switches); IMPORT: from_tk always returns a well-typed circuit from Ty() to the post-processing codomain and, "
+        "for well-formed commands, its wire-labelled trace is exactly the tket commands in order followed by the "
+        "deferred post-selections (with the exact event order); the naive import-trace statement is refuted in Coq by "
+        "the post-selection witness (finding F41); refutation witnesses for the pinned defects and soundness of the "
+        "repairs on them.  Partial: the distribution statement itself (simulate . to_tk = mixed evaluation) needs "
+        "matrix semantics and is decided per case by the numerical oracles (own exact tket simulator vs "
+        "eval(mixed=True), mock backend, round trip); bit routing of the import and the round-trip statement are not "
+        "proved.  Tie to /repo: exact comparison of exported tket circuits modulo commutation on disjoint units and "
+        "of imported diagrams (incl. post-selected tket circuits).",
    design="6/C13", engine="coq-tk",
-   technique="Coq proof (register invariant + trace refinement by induction over layers) + exact correspondence vs pytket export/import + simulation oracles"),
+   technique="Coq proof (register / bit invariants, trace refinement, bit routing, import trace; induction over layers and commands) + exact correspondence vs pytket export/import + simulation oracles"),
  "C12": dict(
    text="22 theorems over the abstract *-ring (executed in Cyc32) about a Gallina model of cqmap.CQMap and cqmap.Functor: "
         "every well-typed pure circuit evaluates mixed to the doubled map conj(U) (x) U of its pure evaluation (per box and "
